@@ -1,16 +1,5 @@
 //! vfront: checks of the asn1rs front end (tokenizer, parser, resolver, model conversions, code generators).
-mod c07;
-mod c08;
-mod c09;
-mod c12;
-mod c13;
-mod c14;
-mod c15;
-mod c18a;
-mod c16a;
-pub mod expansion;
-pub mod front;
-pub mod proto;
+use vfront::*;
 
 fn main() {
     vcore::harness::install_quiet_panic_hook();
@@ -32,6 +21,17 @@ fn main() {
                 if Some(&e.name) == args.get(2) {
                     println!("write order: {:?}", expansion::write_order(&e.text));
                 }
+            }
+        }
+        return;
+    }
+    if args.first().map(|s| s.as_str()) == Some("fuzz-corpus") {
+        // vfront fuzz-corpus <dir>: the literal modules of /repo/tests as seed corpus of the frontend fuzz target
+        for (i, text) in c14::repo_modules().into_iter().enumerate() {
+            if text.len() <= 4000 {
+                let mut f = vec![0u8];
+                f.extend_from_slice(text.as_bytes());
+                let _ = std::fs::write(std::path::Path::new(&args[1]).join(format!("repo-{i}")), f);
             }
         }
         return;
